@@ -47,6 +47,32 @@ CLAIMS.update({
         "with > 4 records, > 2 axes. The MIR translator's std whitelist (Ord::max/min/clamp, PartialOrd on derived newtypes, wrapping ops, i64::from) "
         "is hand-written and validated per run against native execution on ~180 inputs.",
         "DESIGN.md section 6, C13", TECH_SMT + "; " + TECH_KANI),
+    "C04": (
+        "Bounded solver verdict for the matching primitives that do not pass through the layout cache - NOT for lookup application: Coverage "
+        "formats 1/2 and ClassDef formats 1/2 parsed from symbolic bytes return the specified index/class for every u16 glyph; "
+        "MatchType::match_glyph implements the OpenType lookup-flag rule (ignore bases/ligatures/marks, mark attachment type, mark filtering "
+        "set) for every flag word over a GDEF with symbolic glyph classes, attachment classes and filtering set; MatchContext::matches "
+        "(by glyph id, by class, by coverage; backtrack/input/lookahead 1-1-1, 2-0-1, 0-2-2) equals a reference matcher over non-skipped glyphs "
+        "for every run of 5 glyphs, position and flag; find_prev/next/nth/first and Ligature::matches likewise.",
+        "Outside (the larger part of the property): lookup ordering, per-type application loops, nested lookups, extension/reverse-chaining lookups, "
+        "feature variations, ligature application - all behind LayoutCache (std HashMap) or Vec<RawGlyph> surgery. Seeded changes in those areas are missed.",
+        "DESIGN.md section 6, C04", TECH_KANI),
+    "C05": (
+        "Bounded solver verdict for value-record, anchor and kern decoding - NOT for GPOS lookup application or pen-position resolution: every "
+        "valueFormat 0..0xFF decodes into the right Adjust members, consumes 2 bytes per set bit and ValueFormat::size equals that stride; "
+        "VariationIndex device tables are followed at any offset inside the parent table; Anchor formats 1-3; kern format 0 (2 and 3 sorted "
+        "pairs) equals a linear scan for every glyph pair; kern format 2 class lookup returns the cell at leftClass+rightClass or None.",
+        "Outside: PairPos/MarkBase/MarkLig/Cursive parsing and application (LayoutCache), Adjust::apply, glyph_positions (14 GB out of memory). "
+        "The kern format 2 oracle follows the crate's documented reading of the Microsoft text; Apple/HarfBuzz add the array offset into the left class values (DESIGN.md section 7).",
+        "DESIGN.md section 6, C05", TECH_KANI),
+    "C16": (
+        "Bounded solver verdict for the contour walk only: for one contour of 1, 2, 3 and 4 points and two contours of 1+2 points, every on/off-curve "
+        "pattern, the command list delivered to a recording OutlineSink through GlyfTable::visit equals an independent statement of the TrueType "
+        "rule (start point choice, implied midpoints incl. across the closing edge, one move_to and one close per contour); 3 points with every "
+        "i16 coordinate in the thorough tier.",
+        "Outside: composite glyphs (component transforms, offsets, nesting limit), the packed flag/coordinate decoder (SimpleGlyph::read_dep), > 4 points. "
+        "Assumption: pathfinder_simd built with pf-no-simd (scalar Vector2F).",
+        "DESIGN.md section 6, C16", TECH_KANI),
     "C09": (
         "Bounded solver verdict for the arithmetic every written font is assembled from - NOT for FontBuilder itself: table_checksum == sum of "
         "big-endian words mod 2^32 (0, 1, 3, 4 words, all byte values); the loca writer round-trips through the loca reader for 3 arbitrary "
